@@ -69,32 +69,26 @@ Proof.
 Qed.
 
 (* ------------------------------------------------------------------ is_valid_ptr (elf.c) *)
-(* The faithful translation is NOT sound: `(char * )ptr + ptr_size` wraps for a ptr in the last
-   ptr_size bytes of the address space, and ptr = elf + <64-bit offset from the file> can be any address. *)
-Lemma is_valid_ptr_refuted_l : exists base size ptr n,
+(* as written since the repair: ptr >= base && ptr_size <= size && (size_t)(ptr - base) <= size - ptr_size : no sum that can wrap *)
+Lemma is_valid_ptr_sound_l : forall base size ptr n,
+  addr_space_ok base size -> is_u64 ptr -> is_u64 n ->
+  is_valid_ptr base size ptr n = true -> in_buffer base size ptr n.
+Proof.
+  intros base size ptr n Hs Hp Hn H. unfold is_valid_ptr in H. timeout 60 crunch_pred.
+Qed.
+
+(* the variant of the pinned yara 4.5.2 tree (`((char * )ptr) + ptr_size <= ((char * )base) + size`), kept as text: it is NOT sound,
+   the sum wraps for a ptr in the last ptr_size bytes of the address space (ptr = elf + <64-bit offset from the file>) *)
+Definition is_valid_ptr_pinned (base size ptr ptr_size : Z) : bool :=
+  (if (if (u_ge ptr base) then (u_le ptr_size size) else false) then (u_le (p_add 1 ptr ptr_size) (p_add 1 base size)) else false).
+
+Lemma is_valid_ptr_pinned_refuted_l : exists base size ptr n,
   addr_space_ok base size /\ is_u64 ptr /\ is_u64 n /\
-  is_valid_ptr base size ptr n = true /\ ~ in_buffer base size ptr n.
+  is_valid_ptr_pinned base size ptr n = true /\ ~ in_buffer base size ptr n.
 Proof.
   exists 4096, 4096, (M64 - 8), 16.
   repeat split; try (unfold M64; lia); try (vm_compute; congruence).
   unfold in_buffer, M64. lia.
-Qed.
-
-(* what it does guarantee: soundness for pointers whose end does not wrap *)
-Lemma is_valid_ptr_sound_partial_l : forall base size ptr n,
-  addr_space_ok base size -> is_u64 ptr -> is_u64 n ->
-  ptr + n < M64 ->
-  is_valid_ptr base size ptr n = true -> in_buffer base size ptr n.
-Proof.
-  intros base size ptr n Hs Hp Hn Hw H. unfold is_valid_ptr in H. timeout 60 crunch_pred.
-Qed.
-
-(* and without that premise: start inside or above, length fits, END modulo 2^64 inside *)
-Lemma is_valid_ptr_guarantee_l : forall base size ptr n,
-  addr_space_ok base size -> is_u64 ptr -> is_u64 n ->
-  is_valid_ptr base size ptr n = true -> base <= ptr /\ n <= size /\ (ptr + n) mod M64 <= base + size.
-Proof.
-  intros base size ptr n Hs Hp Hn H. unfold is_valid_ptr in H. timeout 60 crunch_pred.
 Qed.
 
 (* ------------------------------------------------------------------ macho load-command loops *)
@@ -220,8 +214,9 @@ Proof. nonvac. Qed.
 Example fits_in_dex_sound_nonvacuous :
   addr_space_ok 4096 100 /\ is_u64 4100 /\ is_u64 8 /\ fits_in_dex 4096 100 4100 8 = true.
 Proof. nonvac. Qed.
-Example is_valid_ptr_sound_partial_nonvacuous :
-  addr_space_ok 4096 100 /\ is_u64 4100 /\ is_u64 8 /\ 4100 + 8 < M64 /\ is_valid_ptr 4096 100 4100 8 = true.
+Example is_valid_ptr_sound_nonvacuous :
+  addr_space_ok 4096 100 /\ is_u64 4100 /\ is_u64 8 /\ is_valid_ptr 4096 100 4100 8 = true /\
+  is_valid_ptr 4096 4096 (M64 - 8) 16 = false.
 Proof. nonvac. Qed.
 Example macho_cmd_ok_sound_nonvacuous :
   addr_space_ok 4096 100 /\ 4096 + 100 + sizeof_yr_load_command_t < M64 /\ is_u32 24 /\ 0 <= 28 <= 100 /\ 4124 = 4096 + 28 /\
